@@ -217,7 +217,7 @@ impl<const CODE: usize> DynamicCodeWrite for ConstCode<CODE> {
             code_consts::RICE8 => writer.write_rice(value, 8),
             code_consts::RICE9 => writer.write_rice(value, 9),
             code_consts::RICE10 => writer.write_rice(value, 10),
-            code_consts::PI1 => writer.write_pi(value, 2),
+            code_consts::PI1 => writer.write_pi(value, 1),
             code_consts::PI2 => writer.write_pi(value, 2),
             code_consts::PI3 => writer.write_pi(value, 3),
             code_consts::PI4 => writer.write_pi(value, 4),
